@@ -333,4 +333,152 @@ theorem pow_laws (n : Nat) (a0 b0 : Vec ℝ) (ha : ∀ i, i < n → 0 < a0 i) :
     · simp only [naive_pow_fw, fns_pow]; ring
   exact ⟨binary_curveLaw _ _ _ _ _ n a0 b0 h, binary_adjointLaw _ _ _ _ _ n a0 b0 h⟩
 
+/-! ### linear operators -/
+
+/-- **Curve law of every linear operator** `linOp ns ms A` (argument sizes `ns`, return sizes `ms`,
+matrix `A`), at every point: the derivative of `A · X(ε)` is `A · T`. -/
+theorem lin_curveLaw (ns ms : List Nat) (A : Nat → Nat → Nat → Nat → ℝ) (x0 : List (Vec ℝ)) :
+    CurveLawAt (linOp ns ms A) ns ms (linJvp ns ms A) x0 := by
+  intro X T Y _ hlen _ hder hY j hj i _
+  have hy : ∀ ε, Y ε = (List.range ms.length).map (linApply ns A (X ε)) := by
+    intro ε
+    have h := hY ε
+    unfold linOp at h
+    simp only [hlen ε, if_true] at h
+    exact (Option.some.inj h).symm
+  have hfun : (fun ε => (Y ε).getD j (fun _ => 0) i)
+      = fun ε => sum2 ns fun k i' => A j i k i' * (X ε).getD k (fun _ => 0) i' := by
+    funext ε; rw [hy ε, getD_map_range _ _ _ hj]; rfl
+  have hT : (linJvp ns ms A x0 T).getD j (fun _ => 0) i
+      = sum2 ns fun k i' => A j i k i' * T.getD k (fun _ => 0) i' := by
+    unfold linJvp; rw [getD_map_range _ _ _ hj]; rfl
+  rw [hfun, hT]
+  unfold sum2
+  refine HasDerivAt.fun_sum fun k hk => HasDerivAt.fun_sum fun i' hi' => ?_
+  exact (hder k (mem_range.mp hk) i' (mem_range.mp hi')).const_mul (A j i k i')
+
+/-- **Adjoint law of every linear operator**: the backward rule `Aᵀ · gys` is the transpose of `A`,
+at all argument and return values. -/
+theorem lin_adjointLaw (ns ms : List Nat) (A : Nat → Nat → Nat → Nat → ℝ) (xs ys : List (Vec ℝ)) :
+    AdjointLawAt (linOp ns ms A) ns ms (linJvp ns ms A) xs ys := by
+  intro gys ts _ ht
+  show listContrib ns ts ((List.range ns.length).map fun k =>
+      some fun i' => sum2 ms fun j i => A j i k i' * gys.getD j (fun _ => 0) i) = _
+  rw [listContrib_range ns ts _ ht]
+  have hR : ∑ j ∈ range ms.length, dot (ms.getD j 0) (gys.getD j fun _ => 0)
+        ((linJvp ns ms A xs ts).getD j fun _ => 0)
+      = sum2 ms fun j i => gys.getD j (fun _ => 0) i * sum2 ns fun k i' => A j i k i' * ts.getD k (fun _ => 0) i' := by
+    show _ = ∑ j ∈ range ms.length, ∑ i ∈ range (ms.getD j 0), _
+    refine sum_congr rfl fun j hj => ?_
+    unfold linJvp
+    rw [getD_map_range _ _ _ (mem_range.mp hj)]
+    rfl
+  have hL : ∑ k ∈ range ns.length, dot (ns.getD k 0)
+        (fun i' => sum2 ms fun j i => A j i k i' * gys.getD j (fun _ => 0) i) (ts.getD k fun _ => 0)
+      = sum2 ns fun k i' => (sum2 ms fun j i => A j i k i' * gys.getD j (fun _ => 0) i) * ts.getD k (fun _ => 0) i' :=
+    rfl
+  rw [hL, hR]
+  simp only [sum2_mul_right, sum2_mul_left]
+  rw [sum2_comm]
+  refine sum2_congr _ _ _ fun j _ i _ => sum2_congr _ _ _ fun k _ i' _ => ?_
+  ring
+
+/-- the matrix of `sum` of all elements of one argument (one return value of size 1) -/
+def sumMat : Nat → Nat → Nat → Nat → ℝ := fun _ _ _ _ => 1
+/-- the matrix of a slice of `m` elements starting at `off` -/
+def sliceMat (off : Nat) : Nat → Nat → Nat → Nat → ℝ := fun _ i _ i' => if i' = i + off then 1 else 0
+/-- the matrix of a broadcast of `n` elements (element `i` of the result is element `i % n`) -/
+def bcastMat (n : Nat) : Nat → Nat → Nat → Nat → ℝ := fun _ i _ i' => if i' = i % n then 1 else 0
+
+example (n : Nat) (x : Vec ℝ) : (linOp [n] [1] sumMat).fwd [x] = some [fun _ => ∑ i ∈ range n, x i] := by
+  simp only [linOp, List.length_cons, List.length_nil, if_true, List.range_succ, List.range_zero, List.map_cons,
+    List.map_nil, List.nil_append, Nat.zero_add]
+  congr 2
+  funext i
+  simp [linApply, sum2, sumMat]
+example (x : Vec ℝ) : (linOp [5] [2] (sliceMat 3)).fwd [x]
+    = some [fun i => if i + 3 < 5 then x (i + 3) else 0] := by
+  have h : ∀ j, linApply [5] (sliceMat 3) [x] j = fun i => if i + 3 < 5 then x (i + 3) else 0 := by
+    intro j
+    funext i
+    simp only [linApply, sum2, sliceMat, List.length_cons, List.length_nil, Nat.zero_add, sum_range_one,
+      List.getD_cons_zero, ite_mul, one_mul, zero_mul]
+    rw [sum_ite_eq' (range 5) (i + 3)]
+    simp [mem_range]
+  simp only [linOp, List.length_cons, List.length_nil, if_true, List.range_succ, List.range_zero, List.map_cons,
+    List.map_nil, List.nil_append, Nat.zero_add, h]
+
+/-! ### bilinear operators -/
+
+/-- **Curve law of every bilinear operator** `bilinOp na nb m B` (Leibniz rule), at every point. -/
+theorem bilin_curveLaw (na nb m : Nat) (B : Nat → Nat → Nat → ℝ) (a0 b0 : Vec ℝ) :
+    CurveLawAt (bilinOp na nb m B) [na, nb] [m] (bilinJvp na nb B) [a0, b0] := by
+  intro X T Y hX0 hlen hTlen hder hY j hj i _
+  have hj0 : j = 0 := by simpa using hj
+  subst hj0
+  obtain ⟨ta, tb, rfl⟩ := list_len2 (by simpa using hTlen)
+  have hx : ∀ ε, X ε = [(X ε).getD 0 fun _ => 0, (X ε).getD 1 fun _ => 0] := by
+    intro ε
+    obtain ⟨x, y, hx⟩ := list_len2 (show (X ε).length = 2 by simpa using hlen ε)
+    rw [hx]; rfl
+  have hy : ∀ ε, Y ε = [fun j => ∑ i ∈ range na, ∑ i' ∈ range nb,
+      B j i i' * (X ε).getD 0 (fun _ => 0) i * (X ε).getD 1 (fun _ => 0) i'] := by
+    intro ε
+    have h := hY ε
+    rw [hx ε] at h
+    exact (Option.some.inj h).symm
+  have hfun : (fun ε => (Y ε).getD 0 (fun _ => 0) i) = fun ε => ∑ i₁ ∈ range na, ∑ i' ∈ range nb,
+      B i i₁ i' * (X ε).getD 0 (fun _ => 0) i₁ * (X ε).getD 1 (fun _ => 0) i' := by
+    funext ε; rw [hy ε]; rfl
+  rw [hfun]
+  show HasDerivAt _ (∑ i₁ ∈ range na, ∑ i' ∈ range nb, B i i₁ i' * (ta i₁ * b0 i' + a0 i₁ * tb i')) 0
+  refine HasDerivAt.fun_sum fun i₁ h1 => HasDerivAt.fun_sum fun i' h2 => ?_
+  have d1 := hder 0 (by simp) i₁ (by simpa using mem_range.mp h1)
+  have d2 := hder 1 (by simp) i' (by simpa using mem_range.mp h2)
+  have d3 := (d1.const_mul (B i i₁ i')).fun_mul d2
+  simp only [hX0, List.getD_cons_zero, List.getD_cons_succ] at d3
+  refine d3.congr_deriv ?_
+  ring
+
+/-- **Adjoint law of every bilinear operator**: the two backward contributions are the transposes of
+the two partial Jacobians. -/
+theorem bilin_adjointLaw (na nb m : Nat) (B : Nat → Nat → Nat → ℝ) (a0 b0 : Vec ℝ) (ys : List (Vec ℝ)) :
+    AdjointLawAt (bilinOp na nb m B) [na, nb] [m] (bilinJvp na nb B) [a0, b0] ys := by
+  intro gys ts hg ht
+  obtain ⟨g, rfl⟩ := list_len1 (by simpa using hg)
+  obtain ⟨ta, tb, rfl⟩ := list_len2 (by simpa using ht)
+  simp only [bilinOp, bilinJvp, listContrib, List.length_cons, List.length_nil, Nat.zero_add,
+    sum_range_one, List.getD_cons_zero, add_zero]
+  unfold dot
+  have e1 : ∑ i ∈ range na, (∑ j ∈ range m, ∑ i' ∈ range nb, B j i i' * g j * b0 i') * ta i
+      = ∑ j ∈ range m, ∑ i ∈ range na, ∑ i' ∈ range nb, B j i i' * g j * (ta i * b0 i') :=
+    calc _ = ∑ i ∈ range na, ∑ j ∈ range m, ∑ i' ∈ range nb, B j i i' * g j * (ta i * b0 i') :=
+          sum_congr rfl fun i _ => by
+            rw [sum_mul]
+            refine sum_congr rfl fun j _ => ?_
+            rw [sum_mul]
+            exact sum_congr rfl fun i' _ => by ring
+      _ = _ := sum_comm
+  have e2 : ∑ i' ∈ range nb, (∑ j ∈ range m, ∑ i ∈ range na, B j i i' * g j * a0 i) * tb i'
+      = ∑ j ∈ range m, ∑ i ∈ range na, ∑ i' ∈ range nb, B j i i' * g j * (a0 i * tb i') :=
+    calc _ = ∑ i' ∈ range nb, ∑ j ∈ range m, ∑ i ∈ range na, B j i i' * g j * (a0 i * tb i') :=
+          sum_congr rfl fun i' _ => by
+            rw [sum_mul]
+            refine sum_congr rfl fun j _ => ?_
+            rw [sum_mul]
+            exact sum_congr rfl fun i _ => by ring
+      _ = ∑ j ∈ range m, ∑ i' ∈ range nb, ∑ i ∈ range na, B j i i' * g j * (a0 i * tb i') := sum_comm
+      _ = _ := sum_congr rfl fun j _ => sum_comm
+  rw [e1, e2, ← sum_add_distrib]
+  refine sum_congr rfl fun j _ => ?_
+  rw [mul_sum, ← sum_add_distrib]
+  refine sum_congr rfl fun i _ => ?_
+  rw [mul_sum, ← sum_add_distrib]
+  exact sum_congr rfl fun i' _ => by ring
+
+/-- the coefficients of matmul for column-major `a : di × dj`, `b : dj × dk`, `y : di × dk`:
+`y[r + di·c] = Σ_t a[r + di·t] · b[t + dj·c]` -/
+def matmulCoef (di dj : Nat) : Nat → Nat → Nat → ℝ := fun j i i' =>
+  if i % di = j % di ∧ i / di = i' % dj ∧ i' / dj = j / di then 1 else 0
+
 end Primitiv.Graph
